@@ -172,6 +172,21 @@ CHECKS['C06'] = dict(
          'dealable (the condition under which the engine does not warn); shuffles are arbitrary permutations.',
     technique='sidecar contracts + own VC generator over the real AST + z3, pointwise (skolem card) conservation; native replay of counter-models')
 
+CHECKS['C10'] = dict(
+    category='proof',
+    text='Street.__post_init__ rejects exactly the invalid street definitions; _begin_dealing makes each player still in the hand due '
+         'exactly the prescribed hole cards with the prescribed facings (folded players nothing), each board the prescribed count, a burn '
+         'exactly when prescribed, a draw decision for each live player in a draw round, and falls back to shared board cards exactly when '
+         'the cards that can be dealt do not cover a stud street; hole_dealee_index is the position-order / one-card-per-round default; the '
+         'phase checks and verifiers accept dealing only after the burn and the draw decisions, for 1..due cards; deal_hole gives each card '
+         'the next prescribed facing and serves nobody else; stand_pat_or_discard is the first undecided player\'s, gives back exactly as '
+         'many cards with the same facings and leaves kept cards as they are; _update_dealing hands over to betting only when nothing is '
+         'due. Each is a clause on the real function against spec/dealing.py, all values symbolic per shape.',
+    design_ref='DESIGN.md section 4 (C10), section 8',
+    note='D/shape (players, cards per prescription / hand <= H, boards). Summing the dealing operations of a street to "exactly the '
+         'prescribed cards" is an induction over the log (paper step). Board-card landing: C14; cards come from cards not in play: C06.',
+    technique='sidecar contracts + own VC generator over the real AST + z3 against an independent rule spec; native replay of counter-models')
+
 NOT_APPLICABLE = {
     'C20': 'regex-driven text importers against external site formats; no contract within reach expresses or decides it (DESIGN.md section 5)',
 }
